@@ -51,6 +51,6 @@ LengthFields ==
     [where |-> "literal_name", width |-> 1], [where |-> "user_attribute_subpacket", width |-> 4], [where |-> "key_v6_material_length", width |-> 4],
     [where |-> "ecc_oid", width |-> 1], [where |-> "skesk_v6_counts", width |-> 1], [where |-> "pkesk_v6_counts", width |-> 1],
     [where |-> "secret_key_v6_counts", width |-> 1], [where |-> "ecdh_wrapped_length", width |-> 1] }
-Repeats == {"marker_packets", "padding_packets", "signature_packets", "one_pass_packets", "user_ids", "nested_compressed", "armor_header_lines", "armor_leading_garbage"}
+Repeats == {"marker_packets", "padding_packets", "signature_packets", "one_pass_packets", "user_ids", "nested_compressed", "nested_embedded_signatures", "armor_header_lines", "armor_leading_garbage"}
 Streams == {"literal", "compressed_zlib", "seipd_v1_streaming", "seipd_v2", "signed_one_pass", "seipd_v1_check_first_capped", "builder_literal", "builder_seipd_v2", "armor_writer", "dearmor"}
 =============================================================================
